@@ -346,29 +346,30 @@ NONJSON = ['', 'not json', '[', '{"jsonrpc":"2.0","id":1,"result":1', 'NaN']
 
 def gen(ctx):
     rng = ctx.rng
-    full = ctx.thorough
+    deep = ctx.thorough
+    full = True
     k = 0
 
     def modes():
         nonlocal k
         k += 1
-        if full:
+        if deep:
             return [(s, a, op) for s in (True, False) for a in (False, True) for op in ('send', 'call')]
         s = (k % 4) != 0
         a = bool(k % 2)
-        return [(s, a, 'send' if (k // 2) % 2 else 'call'), (s, not a, 'call' if (k // 2) % 2 else 'send')]
+        return [(s, a, 'send'), (s, not a, 'call'), (not s, a, 'call' if (k // 2) % 2 else 'send'), (s, not a, 'send')]
 
     for n in (1, 2, 3, 4):
         perms = list(itertools.permutations(range(1, n + 1)))
-        if n == 4 and not full:
-            perms = [perms[0], perms[-1]] + rng.sample(perms[1:-1], 6)
+        if n == 4 and not deep:
+            perms = [perms[0], perms[-1]] + rng.sample(perms[1:-1], 14)
         masks = list(itertools.product((True, False), repeat=n))
         for perm in perms:
-            for mask in (masks if (full or n <= 2) else [masks[0], masks[-1]] + rng.sample(masks[1:-1], 2)):
+            for mask in (masks if (deep or n <= 3) else [masks[0], masks[-1]] + rng.sample(masks[1:-1], 2)):
                 ids = ('one', 'zero', 'str', 'one')[(k + len(perm)) % 4]
                 base = [elem_for(ids, i, mask[i - 1]) for i in perm]
                 for fault in ('none', 'omit', 'duplicate', 'extra', 'retype', 'bool-id', 'float-id', 'null-id'):
-                    ks = range(n) if (full or fault == 'none' or n <= 2) else [rng.randrange(n)]
+                    ks = range(n) if (deep or fault == 'none' or n <= 3) else [rng.randrange(n)]
                     for kk in ([0] if fault == 'none' else ks):
                         doc = mutate(base, n, fault, kk, rng)
                         notif = [[], [0], [n], [0, n + 1]][(k + kk) % 4] if n < 4 else []
